@@ -113,7 +113,7 @@ CLAIMED.update({
              'combinators); one entry per section in log order under numbered names (entries, numbering_rule = buildOutput two-pass counter); '
              'unselected PELs yield no document. Pins: nine section ids, published names. Correspondence: abstract PELs with 0..40 (thorough: 253) '
              'sections encoded by the Lean enc (cross-checked with an independent Python encoder) through the real parsePEL vs model vs spec.',
-        note=BASE + 'Well-formed = PH, UH, then sections each encoded with its computed length; UD/ED/other payload >= 1 byte; display names must not collide (hypothesis hnames, true for the published table); empty message registry.',
+        note=BASE + 'Well-formed = PH, UH, then sections each encoded with its computed length; UD/ED/other payload >= 1 byte; display names must not collide (hypothesis hnames, true for the published table); the message registry is a parameter of the theorems (empty in the C01 correspondence, exercised by C03).',
         technique='Lean 4 proof (Frames: exact consumption + prefix rejection, closed under bind; induction over sections) + differential correspondence',
         ref='§4 C01'),
     'C02': dict(
@@ -129,9 +129,13 @@ CLAIMED.update({
         text='Theorems: every well-formed SRC (all words, flag bytes, word counts 0..9, any number of callouts with any FRU flag combination, optional '
              'PCE / MRU, location codes 0..80) decodes to renderSrc, which spells every displayed field out by arithmetic on the encoded values; callouts '
              'listed in order with Callout Count; hex words 2..wordCount; single-bit tests; MRU ids. Also strictness (every proper prefix rejected) '
-             'including the peek-based substructure walk. Pins: header / error-status / FRU flag masks, SRC types, FRU type and priority tables. '
-             'Correspondence: all FRU x PCE x MRU combinations, the adversarial "PE"/"MR"/"ID" byte pairs, fixture SRC / callout modules, out-of-domain inputs.',
-        note=BASE + 'PARTIAL: the registry message ("Error Details") is not modelled - the sandbox has no pel_registry package, the registry is empty on both sides.',
+             'including the peek-based substructure walk. Message registry (a parameter): the first entry in list order whose reason code contains '
+             'the SRC code and whose type matches decides (registry_first_match*), its message is the segments interleaved with hex() of the SRC words '
+             'named by the argument sources (registry_message, registry_message_shown), the result is the "Error Details" member (error_details_in_render), '
+             'no match / empty registry => no member (registry_no_match, registry_empty). Pins: header / error-status / FRU flag masks, SRC types, FRU type and priority tables. '
+             'Correspondence: all FRU x PCE x MRU combinations, the adversarial "PE"/"MR"/"ID" byte pairs, fixture SRC / callout modules, generated '
+             'message registries (colliding reason codes, 0..4 placeholders, malformed sources and word keys), out-of-domain inputs.',
+        note=BASE + 'The message registry is a parameter of the model (SrcEnv.registry); the harness installs generated registries as pel.peltool.src.registry.pels - the sandbox has no pel_registry package, so the shipped message_registry.json is never read. Registry members are strings; str.format field syntax in messages, non-ASCII digits and int() spellings other than [0-9]+ are outside the modelled subset (model answers unsupported; counted and skipped).',
         technique='Lean 4 proof (continuation-passing exactness lemmas for nested variable-length records, invariant over the callout loop) + differential correspondence',
         ref='§4 C03'),
     'C05': dict(
